@@ -259,8 +259,8 @@ pub fn check_one(sh: &mut Shard, a: &IG, lat: &Lat, verbose: bool) {
             } else {
                 sh.eval(1);
                 let sum: i128 = ipieces.iter().map(|r| ring_area2(r).abs()).sum();
-                // known finding: with rings that touch one another the builder may return pieces that are not a tiling
-                let tcls = if touching { "monotone_touching_rings_wrong_pieces" } else { "-" };
+                // (the touching-rings defects of the builder were repaired in /repo: no known class any more)
+                let tcls = "-";
                 if sum != area2 {
                     sh.violation(&format!("monotone.area_sum|{}|{tcls}", a.kind()), detail("monotone.area_sum", a, lat, area2.to_string(), sum.to_string(), json!({"pieces": format!("{:?}", ipieces)})));
                 }
@@ -312,7 +312,7 @@ pub fn check_one(sh: &mut Shard, a: &IG, lat: &Lat, verbose: bool) {
                         match call(|| mp.intersects(&c)) {
                             Ok(got) => {
                                 if got != exp {
-                                    let tcls = if touching { "monotone_touching_rings_wrong_pieces" } else { "-" };
+                                    let tcls = "-";
                                     sh.violation(&format!("monotone.intersects_coord|{}|{tcls}", a.kind()), detail("monotone.intersects_coord", a, lat, exp.to_string(), got.to_string(), json!({"coord": format!("{:?}", c), "half_lattice": [hx, hy]})));
                                     break 'grid;
                                 }
@@ -327,19 +327,11 @@ pub fn check_one(sh: &mut Shard, a: &IG, lat: &Lat, verbose: bool) {
             }
         }
         Err(p) => {
-            // known finding: the sweep's chain bookkeeping (`Builder::process_next_pt`) unwraps a chain that
-            // was already finished. Attributed only by panic message + source file of the panic.
+            // the panics of the builder on touching rings were repaired in /repo (see known_findings.json `fixed`):
+            // any panic is an unknown violation again; the message kind is kept as a coverage class only
             let loc = last_panic_loc();
-            let cls = if !loc.contains("algorithm/monotone/builder.rs") {
-                "-"
-            } else if p.contains("called `Option::unwrap()` on a `None` value") {
-                "monotone_builder_unwrap_none"
-            } else if p.contains("chains must finish with same start/end points") {
-                "monotone_builder_chain_mismatch"
-            } else {
-                "-"
-            };
-            sh.class(&format!("monotone_panic:{}:{}", cls, if touching { "rings_touch" } else { "rings_do_not_touch" }));
+            let cls = "-";
+            sh.class(&format!("monotone_panic:{}:{}", if loc.contains("algorithm/monotone/") { "in_monotone" } else { "elsewhere" }, if touching { "rings_touch" } else { "rings_do_not_touch" }));
             sh.violation(&format!("monotone.panic|{}|{cls}", a.kind()), detail("monotone.panic", a, lat, "no panic".into(), p, json!({"at": loc})))
         }
     }
